@@ -13,6 +13,7 @@ import (
 	"sort"
 
 	"github.com/gordian-engine/gordian/gcrypto"
+	"github.com/gordian-engine/gordian/internal/zzverif/vk"
 	"github.com/gordian-engine/gordian/tm/tmconsensus"
 	"github.com/gordian-engine/gordian/tm/tmengine/internal/tmeil"
 )
@@ -210,6 +211,7 @@ const (
 	fvFuture
 	fvBeforeCommitting
 	fvUnhandled
+	fvWrongCommit
 )
 
 func (m *mirror) findView(h uint64, r uint32) (*mmView, int, int) {
@@ -239,6 +241,9 @@ func (m *mirror) findView(h uint64, r uint32) (*mmView, int, int) {
 	}
 	if h > m.voting.H {
 		return nil, 0, fvFuture
+	}
+	if m.committing != nil && h == m.committing.H {
+		return nil, 0, fvWrongCommit // a round beyond the committing round of the committing height
 	}
 	return nil, 0, fvUnhandled
 }
@@ -565,7 +570,15 @@ func (m *mirror) previewEntrance(h uint64, r uint32) entranceAnswer {
 	switch st {
 	case fvFound:
 		return entranceAnswer{status: st, view: v.clone()}
+	case fvWrongCommit:
+		// Real mirror: "TODO: handle view not found (status=ViewWrongCommit)" while C03-A7b is open;
+		// with the repair the height is decided and the machine gets the committed header.
+		if vk.Excluded(fidA7b) {
+			return entranceAnswer{status: fvWrongCommit}
+		}
+		fallthrough
 	case fvBeforeCommitting:
+		st = fvBeforeCommitting
 		rec, ok := m.store[h]
 		if !ok {
 			return entranceAnswer{status: fvUnhandled}
